@@ -536,9 +536,11 @@ package index
 //@   pure
 //@   ensures err == nil ==> h.MaxFileSize > 0 && h.MaxFileSize <= (1 << 30) && h.BucketsBits >= 8 && h.BucketsBits <= 31
 
-//@ func writeHeader(headerPath string, header Header) (err error)
-//@   trusted the header file is rewritten in place by os.WriteFile (finding F11: not atomic; see DESIGN.md)
-//@   pure
+// writeHeader (C03-D6, finding F11 fixed): the live header is never written in place; the new
+// contents go to a temporary file that is renamed over it.
+//@ func writeHeader(headerPath string, header Header) (err error)  property C03
+//@   assert at before call os.WriteFile#0: @D6-never-in-place $a0 == headerPath + ".tmp"
+//@   assert at before call os.Rename#0: @D6-atomic-replace $a0 == headerPath + ".tmp" && $a1 == headerPath && event("call:os.WriteFile") == 1
 
 // busy: a record is in use exactly when its bucket points at it (the bucket holds the position
 // of the record's payload, i.e. local position and file number both match).
